@@ -5,6 +5,7 @@ is returned unchanged; R19.3 collect -> seek -> prime -> lapout -> splice order;
 first min(n1,n2) samples of min-channel-count channels and uses the window that belongs to the chosen length.
 Not decided: bit-identity after the lap region, the cross-fade values, end-of-file cases."""
 import absint
+import cfg
 import k2
 import k9
 from absint import V
@@ -169,7 +170,52 @@ def r19_4(chk, P):
         chk.ob('R19.4', '_ov_splice', f'access:{name}', ok, F.where(e), msg)
 
 
+def _const(F, e):
+    """value of a literal, a negated literal or a parenthesised one"""
+    nd = F.ex[F.strip_casts(e)]
+    if nd['k'] == 'int':
+        return nd['v']
+    if nd['k'] == 'un' and nd['op'] == '-':
+        v = _const(F, nd['c'][0])
+        return -v if v is not None else None
+    return None
+
+
+def _calls_in(F, e, name):
+    nd = F.ex[e]
+    if nd['k'] == 'call' and nd['callee'].get('d') == name:
+        return True
+    return any(_calls_in(F, c, name) for c in nd.get('c', []))
+
+
+def r19_5(chk, P):
+    chk.rule('R19.5', 'the packet fetch ends a link only at a link boundary: in _fetch_and_process_packet every return of OV_EOF is '
+             'reached only through the failing edge of _get_next_page (no more data) or the true edge of ogg_page_bos on the '
+             'page just read (the next link begins); a page of a foreign serial number that is not a BOS page is skipped.  '
+             'This is what lets the lap helpers (spanp==0) report end-of-file only when no audio follows')
+    F = P.need('_fetch_and_process_packet')
+    ov_eof = -2
+    rets = [e for e in cfg.returns(F) if F.ex[e].get('c') and _const(F, F.ex[e]['c'][0]) == ov_eof]
+    chk.require(rets, '_fetch_and_process_packet: no return of OV_EOF found')
+    for i, e in enumerate(sorted(rets, key=lambda x: F.ex[x]['loc'])):
+        conds = common.controlling_conditions(F, e)
+        why = None
+        for c, pol in conds:
+            cn = F.ex[F.strip_casts(c)]
+            if _calls_in(F, c, '_get_next_page') and cn['k'] == 'bin' and cn['op'] == '<' and pol:
+                why = 'no page could be read'
+            if _calls_in(F, c, 'ogg_page_bos') and cn['k'] == 'call' and pol:
+                why = 'the page begins the next link'
+            if _calls_in(F, c, 'ogg_page_bos') and cn['k'] == 'un' and cn['op'] == '!' and not pol:
+                why = 'the page begins the next link'
+        chk.ob('R19.5', F.name, f'eof-only-at-link-boundary#{i}', why is not None, F.where(e),
+               why if why else 'OV_EOF is returned for a page that need not be a BOS page: a multiplexed foreign stream ends the link '
+               f'(controlling tests: {[F.s(c)[:40] + ("" if pol else " [false]") for c, pol in conds]})')
+
+
 def run(chk, P):
+    r19_5(chk, P)
+    chk.floor('R19.5', 2)
     r19_1(chk, P)
     chk.floor('R19.1', 5)
     r19_2_3(chk, P)
